@@ -280,3 +280,28 @@ def _argeq_from(ns, sl, X, i, m):
 
 
 lemma('L_ArgEqR_from', _P + [('m', REAL)], _argeq_from, ind='i')
+
+# ---- reward operator: Lipschitz and sign lemmas
+lemma('L_MinW0_lip', _PL, lambda ns, sl, A, B, e, i: Implies(And(_near(A, B, e), e >= 0), _absr(MinW0(ns, sl, A, i) - MinW0(ns, sl, B, i)) <= e), ind='i')
+
+
+def _nonneg(A, sl):
+    t = Int('t!nn')
+    return ForAll([t], Implies(And(0 <= t, t < L_len(sl, SLT)), A[L_arr(sl, SLT)[t]] >= 0))
+
+
+lemma('L_MinW0_nonneg', _PB, lambda ns, sl, A, i: Implies(And(_inrange(ns, sl, If(i >= 1, i, 1)), _nonneg(A, sl)), MinW0(ns, sl, A, i) >= 0), ind='i')
+lemma('L_MaxS_nonneg', _PB, lambda ns, sl, A, i: MaxS(ns, sl, A, i) >= 0, ind='i')
+lemma('L_SumS_nonneg', _PB, lambda ns, sl, A, i: Implies(And(_inrange(ns, sl, i), _nonneg(A, sl), _pnonneg(ns, i)), SumS(ns, sl, A, i) >= 0), ind='i')
+
+
+def _properW(c, ns):
+    return And(0 <= c, c <= 2, Implies(And(c == P_PROB, L_len(ns, NS) > 0), And(_pnonneg(ns, L_len(ns, NS)), SumP(ns, L_len(ns, NS)) == 1)))
+
+
+_PBW = [('c', INT), ('r', REAL), ('ns', NS), ('sl', SLT), ('A', AR), ('B', AR)]
+lemma('L_BW_lip', _PBW + [('e', REAL)], lambda c, r, ns, sl, A, B, e: Implies(And(_near(A, B, e), e >= 0, _properW(c, ns)), _absr(BW(c, r, ns, sl, A) - BW(c, r, ns, sl, B)) <= e),
+      hints=lambda c, r, ns, sl, A, B, e: [LEMMAS[n](ns, sl, A, B, e, L_len(ns, NS)) for n in ('L_MaxS_lip', 'L_MinW0_lip', 'L_SumS_lip')] + [L_len(ns, NS) >= 0])
+lemma('L_BW_nonneg', [('c', INT), ('r', REAL), ('ns', NS), ('sl', SLT), ('A', AR)],
+      lambda c, r, ns, sl, A: Implies(And(r >= 0, _inrange(ns, sl, L_len(ns, NS)), _nonneg(A, sl), _properW(c, ns)), BW(c, r, ns, sl, A) >= 0),
+      hints=lambda c, r, ns, sl, A: [LEMMAS[n](ns, sl, A, L_len(ns, NS)) for n in ('L_MaxS_nonneg', 'L_MinW0_nonneg', 'L_SumS_nonneg')] + [L_len(ns, NS) >= 0])
